@@ -233,9 +233,42 @@ func c16Stores(c *Ctx, a *sketchAnchors) {
 			for _, wc := range []int{3, 5} {
 				for _, p := range pathsInClass(paths, "w", wc) {
 					trunc := 0
+					directReadd := map[int]bool{}
 					for _, e := range p.Effects {
 						if e.Kind == "store" && isRecvField(e.Addr, pr.bufFld) && e.Val.Op == "slice" {
 							trunc = e.Seq
+						}
+						// the same re-add written out: page(pageIndex(i), true)[lineIndex(i)] += w with i an element of the old buffer
+						if e.Kind == "store" && e.Addr.Op == "index" && isMethodCall(e.Addr.Args[0], "page") && trunc != 0 && e.Seq > trunc {
+							pg, ln := e.Addr.Args[0], e.Addr.Args[1]
+							bufElem := func(t *Term) bool {
+								return t.Op == "index" && t.Args[0].Op == "field" && t.Args[0].Sym == pr.bufFld && t.Args[0].Args[0].isParam(0)
+							}
+							// the page is selected and the line computed from the SAME element of the old buffer (pageIndex / lineIndex
+							// are one-line getters and appear inlined: index >> pageLenLog2, index & mask)
+							var elem *Term
+							if len(pg.Args) == 3 {
+								pg.Args[1].walk(func(x *Term) bool {
+									if elem == nil && bufElem(x) {
+										elem = x
+									}
+									return true
+								})
+							}
+							sameElem := false
+							if elem != nil {
+								ln.walk(func(x *Term) bool {
+									if x.Key() == elem.Key() {
+										sameElem = true
+									}
+									return true
+								})
+							}
+							okDirect := sameElem && e.Val.isBin("+") && (isW(e.Val.Args[0]) && e.Val.Args[1].unver().Key() == e.Addr.unver().Key() || isW(e.Val.Args[1]) && e.Val.Args[0].unver().Key() == e.Addr.unver().Key())
+							if okDirect {
+								nReadd++
+								directReadd[e.Seq] = true
+							}
 						}
 						if e.Kind == "call" && isMethodCall(e.Call, "AddWithCount") && len(e.Call.Args) == 3 && e.Call.Args[0].isRecv() {
 							nReadd++
@@ -266,6 +299,8 @@ func c16Stores(c *Ctx, a *sketchAnchors) {
 						case e.Kind == "store" && isRecvField(e.Addr, pr.bufFld) && e.Val.Op == "slice":
 						case e.Kind == "store" && e.Addr.Op == "index" && e.Addr.Args[0].Op == "index" && isTimesW(e.Val, func(t *Term) bool { return t.unver().Key() == e.Addr.unver().Key() }, isW):
 						case e.Kind == "call" && isMethodCall(e.Call, "AddWithCount") && len(e.Call.Args) == 3 && e.Call.Args[0].isRecv():
+						case e.Kind == "store" && directReadd[e.Seq]:
+						case e.Kind == "call" && isMethodCall(e.Call, "page") && trunc != 0 && e.Seq > trunc: // page allocation for a direct re-add
 						default:
 							bad = firstNonEmpty(bad, "the representation is changed by something other than emptying the buffer, scaling page elements and re-adding: "+e.String())
 						}
